@@ -3,6 +3,7 @@
 Also hosts the runner shared with C09 (same model Client/Client.v, same driver drivers/cli.py,
 same generator gen/client_hist.py; the two differ in knobs, Coq checker and classification)."""
 import ast
+import os
 
 from vt import coqio
 from drivers import cli
@@ -116,13 +117,14 @@ def shrink(name, cfg, ops, mode, coro, keep, budget=14):
 
 def report(chk, name, hs, bad, classify, max_sigs=6):
     """One shrunk replay per distinct signature."""
-    seen = {}
+    seen, where_seen = {}, {}
     for i, mode, coro, code, term in bad:
         cfg, ops, _ = hs[i]
         if code & 2:
             sig = classify(name, cfg, ops, term, code)
         else:
             sig = '%s-%s-correspondence' % (name, mode)
+        where_seen.setdefault(sig, set()).add('Client' if mode == 'sync' else 'AsyncClient')
         if sig not in seen and len(seen) < max_sigs:
             seen[sig] = (i, mode, coro, code)
     for sig, (i, mode, coro, code) in seen.items():
@@ -134,13 +136,14 @@ def report(chk, name, hs, bad, classify, max_sigs=6):
                 return bool(c & 2) and classify(name, cfg, cand, term, c) == sig
             return bool(c & 1)
         try:
-            small = shrink(name, cfg, ops, mode, coro, keep)
+            small = ops if os.environ.get('VERIF_NOSHRINK') else shrink(name, cfg, ops, mode, coro, keep)
         except Exception:
             small = ops
         replay = {'py': repr((cfg, small, mode, coro))}
         if want_prop:
-            chk.violation(sig, 'the %s client violates the Coq-checked %s checker (clauses %s) on this history'
-                          % (mode, name.upper(), clause_names(where(code)[1], CLAUSES if name == 'c08' else C09_CLAUSES)),
+            chk.violation(sig, 'the real %s violate(s) the Coq-checked %s checker (clauses %s); replay is the minimised history on the %s client'
+                          % (' and '.join(sorted(where_seen[sig], reverse=True)), name.upper(),
+                             clause_names(where(code)[1], CLAUSES if name == 'c08' else C09_CLAUSES), mode),
                           replay)
         else:
             chk.broken_obligation('correspondence: Client.v and the %s client disagree (history %d)' % (mode, i))
@@ -176,6 +179,10 @@ WITNESS_PARTIAL = (CFG_W, [('connect', ['/', '/a'], None, False, True, False, ['
                            ('emit', 'x', None, '/', None)], {})
 WITNESS_WINDOW_DISCONNECT = (CFG_W, [('connect', ['/'], None, False, True, False, ['0{"sid":"S0"}', '1'], False),
                                      ('emit', 'x', None, '/', None)], {})
+# wait=False: the default namespace is refused, another one is accepted afterwards (third finding, notes section 4)
+WITNESS_ROOT_REFUSAL = (CFG_W, [('connect', ['/', '/a'], None, False, False, False, [], False),
+                                ('msg', '4{"message":"no"}'), ('msg', '0/a,{"sid":"S0"}'),
+                                ('emit', 'x', None, '/a', None), ('disconnect',)], {})
 
 
 def classify(name, cfg, ops, term, code):
@@ -245,7 +252,7 @@ def run(chk):
     chk.prove()
     n = 700 if chk.thorough else 70
     k = client_hist.Knobs(n_ops=30 if chk.thorough else 24)
-    hs = [WITNESS_PARTIAL, WITNESS_WINDOW_DISCONNECT]
+    hs = [WITNESS_PARTIAL, WITNESS_WINDOW_DISCONNECT, WITNESS_ROOT_REFUSAL]
     for _ in range(n):
         hs.append(client_hist.gen_history(rng, k))
     for _ in range(n // 7):
